@@ -40,7 +40,7 @@ def params(tier):
     if tier == 'quick':
         return {'examples': 900, 'wall': 80, 'case_timeout': 40, 'max_muts': 6}
 
-    return {'examples': 20000, 'wall': 1500, 'case_timeout': 60, 'max_muts': 12}
+    return {'examples': 20000, 'wall': 600, 'case_timeout': 60, 'max_muts': 12}
 
 
 def floors(tier):
